@@ -16,7 +16,7 @@ RULE = ('one generated spec is built (1) as a hand-written spied chart, (2) with
         'model. Specs include states without registered entry/exit/init, guard callbacks that decline, init callbacks that transition. '
         'distinct_nontrivial = distinct (build, states, transitions, declines) tuples')
 CASES = {'quick': 2500, 'thorough': 100000}
-BUDGET = {'quick': 50, 'thorough': 900}
+BUDGET = {'quick': 50, 'thorough': 300}
 REQUIRE = {'template_builds': 1000, 'to_code_builds': 1000, 'factory_builds': 50, 'steps_compared': 20000, 'declines': 200}
 ASSUME = ['signal and state names are Python identifiers (to_code emits signals.NAME and def NAME)']
 
